@@ -521,3 +521,6 @@ V("c04-tag-cache-by-name", "C04", "rich/markup.py", [("    _Tag = Tag\n\n    def
 PG = "rich/progress.py"
 V("c12-start-task-unlocked", "C12", PG, "        with self._lock:\n            task = self._tasks[task_id]\n            if task.start_time is None:\n                task.start_time = self.get_time()\n\n    def stop_task", "        if True:\n            task = self._tasks[task_id]\n            if task.start_time is None:\n                task.start_time = self.get_time()\n\n    def stop_task", "R12.1")
 V("c12-tasks-property-unlocked", "C12", PG, "        with self._lock:\n            return list(self._tasks.values())\n", "        if True:\n            return list(self._tasks.values())\n", "R12.1")
+V("c12-update-advance-dropped", "C12", PG, "            if advance is not None:\n                task.completed += advance\n", "            if advance is not None:\n                pass\n", "R12.9")
+V("c12-update-completed-under-advance", "C12", PG, "            if completed is not None:\n                task.completed = completed\n", "            if completed is not None and advance is not None:\n                task.completed = completed\n", "R12.9")
+V("c12-reset-completed-conditional", "C12", PG, "            task.completed = completed\n            if visible is not None:", "            if completed:\n                task.completed = completed\n            if visible is not None:", "R12.9")
